@@ -115,7 +115,7 @@ Proof.
         intros Hc. apply okey_eqb_false in E. apply E. unfold ckey in Hc. inversion Hc. split; reflexivity.
 Qed.
 
-Lemma fold_unspend_nil w : fold_left unspend [] w = w. Proof. reflexivity. Qed.
+Lemma fold_unspend_nil ch w : fold_left (unspend ch) [] w = w. Proof. reflexivity. Qed.
 
 Lemma restore_indices_outs : forall found w, w_outs (restore_indices w found) = w_outs w.
 Proof.
